@@ -134,6 +134,7 @@ class _ReleaseLeftovers:
 
     def __exit__(self, *a):
         alive = [p for p in X.GatedProcess.started if p.is_alive()]
+        X.SCRIPT.nstarted = len(X.GatedProcess.started)
         if TICKER is not None and TICKER.fired >= 2:
             for p in alive:
                 p.join(2.0)          # terminate() has been sent; give the signal time to land
@@ -175,7 +176,7 @@ def run_interrupt(case, k1, k2, forced=None):
     return obs, oracle, ticker, script
 
 
-def emit_icase(case, obs, oracle, k1, k2, terminated):
+def emit_icase(case, obs, oracle, k1, k2, terminated, nstarted):
     out = obs['outcome']
     if out == 'returned':
         o = 'IReturned ' + g_list([g_pair(t, S.g_val_safe(v)) for t, v in obs['returned']])
@@ -189,8 +190,8 @@ def emit_icase(case, obs, oracle, k1, k2, terminated):
     else:
         o = 'IOutOfOracle'
     return ('{| ic_cfg := %s; ic_maxw := %d; ic_oracle := %s; ic_k1 := %s; ic_k2 := %s; ic_outcome := %s; ic_trace := %s; '
-            'ic_terminated := %s |}' % (S.emit_cfg(case), case['max_workers'], g_list([g_nats(b) for b in oracle]),
-                                        g_opt(k1), g_opt(k2), o, S.emit_events(obs), g_nats(sorted(terminated))))
+            'ic_terminated := %s; ic_nstarts := %d |}' % (S.emit_cfg(case), case['max_workers'], g_list([g_nats(b) for b in oracle]),
+                                        g_opt(k1), g_opt(k2), o, S.emit_events(obs), g_nats(sorted(terminated)), nstarted))
 
 
 INTR_IMPORTS = 'Require Import LT.Model.Base LT.Model.Sched LT.Model.Intr LT.Gen.SrcParams.\n'
